@@ -52,13 +52,13 @@ func Lists(Tokens []string, maxLen int) [][]string {
 }
 
 var (
-	TokVerbs  = []string{"*", "get", "list", "-get", "-list"}
-	TokGroups = []string{"*", "", "apps", "-", "-apps"}
+	TokVerbs  = []string{"*", "get", "list", "-get", "-list", "-*"}
+	TokGroups = []string{"*", "", "apps", "-", "-apps", "-*"}
 	// ("status" / "-status": a resource that is NAMED like the subresource the */sub entries speak of)
-	TokRes   = []string{"*", "pods", "pods/status", "*/status", "deployments", "-pods", "-deployments", "-pods/status", "-*/status", "status", "-status"}
-	TokNames = []string{"*", "a", "-a", "-b"}
-	TokUsers = []string{"*", "alice", "system:*", "-alice", "-system:*"}
-	TokUG    = []string{"*", "g1", "g2", "-g1", "-g2"}
+	TokRes   = []string{"*", "pods", "pods/status", "*/status", "deployments", "-pods", "-deployments", "-pods/status", "-*/status", "status", "-status", "-*"}
+	TokNames = []string{"*", "a", "-a", "-b", "-*"}
+	TokUsers = []string{"*", "alice", "system:*", "-alice", "-system:*", "-*"}
+	TokUG    = []string{"*", "g1", "g2", "-g1", "-g2", "-*"}
 	TokURL   = []string{"*", "/healthz", "/healthz/*", "/api*", "-/healthz"}
 	SaSets   = [][]proxyv1alpha1.ServiceAccountRef{nil, {{Namespace: "ns", Name: "sa"}}, {{Namespace: "", Name: "sa"}}}
 
